@@ -16,6 +16,8 @@ var checks = map[string]func(*Checker){
 	"C04": checkC04,
 	"C05": checkC05,
 	"C15": checkC15,
+	"C16": checkC16,
+	"C17": checkC17,
 	"C18": checkC18,
 	"C19": checkC19,
 	"C20": checkC20,
